@@ -200,6 +200,7 @@ class HostWorld(object):
             for h in sorted(self.cluster.metadata.all_hosts(), key=addr_of):
                 self.oid(h)
             self.auth_stopped = []      # reconnection handlers whose series ended with AuthenticationFailed
+            self.n_initial = len(self.oid.objs)
             del self.plog[:]
             self.hosts = dict((addr_of(h), h) for h in self.cluster.metadata.all_hosts())
             self.w.manual = True
@@ -239,6 +240,12 @@ class HostWorld(object):
     def refresh_hosts(self):
         for h in self.cluster.metadata.all_hosts():
             self.hosts[addr_of(h)] = h
+            self.oid(h)
+
+    def added_later(self, host):
+        """True for a Host instance that the driver created during the history (node-list refresh), False for
+        the instances that were there when the history started."""
+        return self.oid(host) >= self.n_initial
 
     def in_metadata(self, addr):
         return self.cluster.metadata.get_host(addr) is not None
